@@ -79,6 +79,7 @@ type Cfg struct {
 	Tight      int  // 0..100 probability of omitting optional separators
 	BlockHeavy bool
 	LongSizes  []int // candidate sizes for long strings/idents when LongTail
+	NoNL       bool  // string literals never denote a line break (line-oriented output oracles)
 }
 
 func DefaultCfg(r *prng.R) Cfg {
@@ -225,7 +226,11 @@ func (g *g) strLit() string {
 	}
 	n := g.r.Weighted(2, 6, 5, 3, 2)
 	for i := 0; i < n; i++ {
-		sb.WriteString(prng.Pick(g.r, strPieces))
+		pc := prng.Pick(g.r, strPieces)
+		if g.cfg.NoNL && (pc == `\n` || pc == `\r`) {
+			pc = "_"
+		}
+		sb.WriteString(pc)
 	}
 	sb.WriteByte('"')
 	return sb.String()
